@@ -2,6 +2,7 @@ package main
 
 import (
 	"fmt"
+	"runtime/debug"
 	"go/token"
 	"go/types"
 	"os"
@@ -20,10 +21,13 @@ type abortPath struct{ reason string } // inconclusive: unsupported / bound exce
 type prunePath struct{}                // Assume(false)
 type violationPath struct{}            // assertion failed (counterexample recorded)
 type endPath struct{}                  // harness asked to stop this path normally
+type engineCrash struct {              // engine bug or unsupported value shape: path inconclusive
+	msg, stack, where string
+}
 
 func isEnginePanic(p interface{}) bool {
 	switch p.(type) {
-	case abortPath, prunePath, violationPath, endPath, mergeAbort:
+	case abortPath, prunePath, violationPath, endPath, mergeAbort, engineCrash:
 		return true
 	}
 	return false
@@ -121,6 +125,7 @@ type frame struct {
 	panicking        bool
 	panic            interface{}
 	phitemps         []Value
+	cur              ssa.Instruction
 }
 
 // Interp is the per-path interpreter state (one per worker, reset per path).
@@ -328,7 +333,11 @@ func (in *Interp) visitInstr(fr *frame, instr ssa.Instruction) continuation {
 			addr = new(Value)
 			fr.set(instr, addr)
 		} else {
-			addr = fr.get(instr).(*Value)
+			addr, _ = fr.get(instr).(*Value)
+			if addr == nil { // e.g. executing a slice of an init function
+				addr = new(Value)
+				fr.set(instr, addr)
+			}
 		}
 		*addr = zero(instr.Type().(*types.Pointer).Elem())
 
@@ -539,6 +548,14 @@ func (in *Interp) prepareCall(fr *frame, call *ssa.CallCommon) (fn Value, args [
 		if recv.t == nil {
 			in.rtPanic("invalid memory address or nil pointer dereference (method call on nil interface)")
 		}
+		if _, isOpaque := recv.v.(Opaque); isOpaque {
+			res := call.Method.Type().(*types.Signature).Results()
+			fn = &Native{name: "blackhole-method", fn: func(in *Interp, args []Value) Value { return opaqueResults(res) }}
+			for _, arg := range call.Args {
+				args = append(args, fr.get(arg))
+			}
+			return
+		}
 		f := in.lookupMethod(recv.t, call.Method)
 		if f == nil {
 			panic(fmt.Sprintf("method set for dynamic type %v does not contain %s", recv.t, call.Method))
@@ -631,7 +648,11 @@ func (in *Interp) runFrame(fr *frame) {
 			panic(p)
 		}
 		if _, ok := p.(targetPanic); !ok {
-			panic(p) // engine bug
+			where := fr.fi.name
+			if fr.cur != nil {
+				where += " @ " + fr.fn.Prog.Fset.Position(fr.cur.Pos()).String() + " : " + fr.cur.String()
+			}
+			panic(engineCrash{msg: fmt.Sprint(p), stack: string(debug.Stack()), where: where})
 		}
 		fr.panicking = true
 		fr.panic = p
@@ -648,6 +669,7 @@ func (in *Interp) runFrame(fr *frame) {
 	for {
 		nonPhis := in.executePhis(fr)
 		for _, instr := range nonPhis {
+			fr.cur = instr
 			if in.visitInstr(fr, instr) == kReturn {
 				return
 			}
